@@ -62,6 +62,51 @@ func (fr *frame) adoptFor(l *loopInfo) {
 	vc.note("loop %d of %s (inlined into %s) adopted loop contract %d of %s: the loop was moved into a helper", l.ordinal, shortFn(fr.fn), shortFn(pick.owner.fn), pick.ord, shortFn(pick.owner.fn))
 }
 
+// adoptUnrollAtEntry: an `unroll k` loop contract has to be known before the helper's blocks are scheduled, so
+// it is adopted when the helper is entered (by its first contract-less loop, in source order), not when the
+// loop is reached.
+func (fr *frame) adoptUnrollAtEntry() {
+	vc := fr.vc
+	if len(vc.orphans) == 0 {
+		return
+	}
+	loops := append([]*loopInfo{}, fr.loops...)
+	sort.Slice(loops, func(i, j int) bool { return loops[i].ordinal < loops[j].ordinal })
+	for _, l := range loops {
+		if l.ann != nil {
+			continue
+		}
+		key := fr.callPos + "|" + fr.fn.String() + "|" + l.header.String()
+		var pick *orphanAnn
+		for _, o := range vc.orphans {
+			if o.by[key] {
+				pick = o
+				break
+			}
+		}
+		if pick == nil {
+			for _, o := range vc.orphans {
+				if !o.adopted {
+					pick = o
+					break
+				}
+			}
+		}
+		if pick == nil || pick.ann.Unroll == 0 {
+			return
+		}
+		if pick.by == nil {
+			pick.by = map[string]bool{}
+		}
+		pick.by[key] = true
+		pick.adopted = true
+		l.ann = pick.ann
+		l.unroll = pick.ann.Unroll
+		l.foreign = pick.owner
+		vc.note("loop %d of %s (inlined into %s) adopted the unroll bound of loop contract %d of %s: the loop was moved into a helper", l.ordinal, shortFn(fr.fn), shortFn(pick.owner.fn), pick.ord, shortFn(pick.owner.fn))
+	}
+}
+
 // identKinds: the free identifiers of an expression and the kind of value each is used as
 // ("map", "seq" for something indexed or measured, "" unknown).
 func identKinds(e Expr, bound map[string]bool, out map[string]string) {
